@@ -25,7 +25,7 @@ TECHNIQUE = ("runtime monitoring under a cooperative scheduler: real growers, re
 RULE = ("configurations: 1-3 growers (distinct batches, or the same batch twice) + a waiting reaper and/or a progress poller "
         "on crops of 1-3 batches with multi-chunk results; exhaustive up to partial-order equivalence (sleep-set DFS) for "
         "{1 grower + reaper, 1 batch}, {1 grower + poller}, {2 growers same batch + poller}, {2 growers distinct + reaper, "
-        "2 batches} (capped, see evidence), seeded random schedules for the larger ones; configurations under an MPI launch (the first grower is rank 1: its function returns nothing useful and it must publish nothing); configurations whose first grower fails part-way through its result write with an error (ENOSPC injected by the shim) while a second grower of the same batch succeeds, by DFS and random schedules; the swept function seeds the global random generator; TMPDIR on another file system where the machine has one; reapers that wait AND would accept an incomplete crop (a batch finished beforehand); a schedule is one execution, "
+        "2 batches} (capped, see evidence), seeded random schedules for the larger ones; configurations under an MPI launch (the first grower is rank 1: its function returns nothing useful and it must publish nothing); configurations whose first grower fails part-way through its result write with an error (ENOSPC injected by the shim) while a second grower of the same batch succeeds, by DFS and random schedules; the swept function seeds the global random generator; TMPDIR on another file system where the machine has one; reapers that wait AND would accept an incomplete crop (a batch finished beforehand); batches of 120 settings; the wait flag as True / 1 / numpy.True_; pollers that are long-lived Crop objects having seen an earlier complete cycle; a schedule is one execution, "
         "distinct by its Mazurkiewicz trace signature; non-trivial when it contains >= 2 actors' events interleaved")
 ASSUMPTIONS = [
     "interleaving granularity = Python-level file operations (create, each of <= 3 write prefixes, close, rename, stat, open, read, list, unlink)",
